@@ -126,6 +126,7 @@ mod kani_c19_wire {
 //   (c19_poll_at_timeout) the fail-over happens at 10 s sharp.
 #[cfg(kani)]
 mod kani_c19 {
+    #![allow(unsafe_code, static_mut_refs)]   // ghost call log of the contract stubs (single-threaded harnesses)
     use super::*;
     use heapless::Vec as HVec;
     use std::vec::Vec; // the glob-imported heapless Vec would break the driver's injected playback tests
@@ -200,28 +201,32 @@ mod kani_c19 {
     #[derive(Clone, Copy, PartialEq, Eq)]
     enum K { Free, Pending, Completed, Failure }
     #[derive(Clone)]
-    struct Snap { k: K, name: [u8; DNS_MAX_NAME_SIZE], name_len: usize, ty: u16, port: u16, txid: u16, timeout_at: Option<Instant>, retransmit_at: Instant, delay: Duration, idx: usize, mdns: bool,
-        addrs: [Option<IpAddress>; DNS_MAX_RESULT_COUNT] }
+    struct Snap { k: K, name: u64 /* the name octets packed little-endian (DNS_MAX_NAME_SIZE <= 8): a byte array here made CBMC report spurious differences */, name_len: usize, ty: u16, port: u16, txid: u16, timeout_at: Option<Instant>, retransmit_at: Instant, delay: Duration, idx: usize, mdns: bool,
+        a0: u64, a1: u64 /* stored addresses, 0 = none, else 1 << 32 | IPv4 bits (scalars: arrays inside the snapshot made CBMC report spurious values); DNS_MAX_RESULT_COUNT <= 2 */ }
     fn snap(s: &Socket, i: usize) -> Snap {
         let z = Instant::from_micros(0);
-        let mut r = Snap { k: K::Free, name: [0; DNS_MAX_NAME_SIZE], name_len: 0, ty: 0, port: 0, txid: 0, timeout_at: None, retransmit_at: z, delay: Duration::ZERO, idx: 0, mdns: false, addrs: [None; DNS_MAX_RESULT_COUNT] };
+        let mut r = Snap { k: K::Free, name: 0, name_len: 0, ty: 0, port: 0, txid: 0, timeout_at: None, retransmit_at: z, delay: Duration::ZERO, idx: 0, mdns: false, a0: 0, a1: 0 };
         match &s.queries[i] {
             None => {}
             Some(q) => match &q.state {
                 State::Pending(p) => { r.k = K::Pending; r.name_len = p.name.len();
-                    upto6(DNS_MAX_NAME_SIZE, |j| if j < p.name.len() { r.name[j] = p.name[j]; });
+                    upto6(DNS_MAX_NAME_SIZE, |j| if j < p.name.len() { r.name |= (p.name[j] as u64) << (8 * j); });
                     r.ty = p.type_.into(); r.port = p.port; r.txid = p.txid; r.timeout_at = p.timeout_at;
                     r.retransmit_at = p.retransmit_at; r.delay = p.delay; r.idx = p.server_idx; r.mdns = !matches!(p.mdns, MulticastDns::Disabled); }
-                State::Completed(c) => { r.k = K::Completed; upto6(DNS_MAX_RESULT_COUNT, |j| if j < c.addresses.len() { r.addrs[j] = Some(c.addresses[j]); }); }
+                State::Completed(c) => { r.k = K::Completed; assert!(DNS_MAX_RESULT_COUNT <= 2, "harness limit");
+                    if c.addresses.len() > 0 { r.a0 = (1u64 << 32) | bits(c.addresses[0]) as u64; } if c.addresses.len() > 1 { r.a1 = (1u64 << 32) | bits(c.addresses[1]) as u64; } }
                 State::Failure => r.k = K::Failure,
             },
         }
         r
     }
-    fn same_name(a: &Snap, b: &Snap) -> bool { let mut same = a.name_len == b.name_len; upto6(DNS_MAX_NAME_SIZE, |j| same &= a.name[j] == b.name[j]); same }
+    fn same_name(a: &Snap, b: &Snap) -> bool { a.name_len == b.name_len && a.name == b.name }
+    fn name_byte(a: &Snap, j: usize) -> u8 { (a.name >> (8 * j)) as u8 }
     fn bits(a: IpAddress) -> u32 { match a { IpAddress::Ipv4(x) => x.to_bits() } }
     fn obits(a: Option<IpAddress>) -> Option<u32> { a.map(bits) }
-    fn same_addrs(a: &Snap, b: &Snap) -> bool { let mut same = true; upto6(DNS_MAX_RESULT_COUNT, |j| same &= obits(a.addrs[j]) == obits(b.addrs[j])); same }
+    fn same_addrs(a: &Snap, b: &Snap) -> bool { a.a0 == b.a0 && a.a1 == b.a1 }
+    /// j-th stored address of a completed query, as IPv4 bits
+    fn addr_bits(a: &Snap, j: usize) -> Option<u32> { let v = if j == 0 { a.a0 } else if j == 1 { a.a1 } else { 0 }; if v == 0 { None } else { Some(v as u32) } }
     fn any_index() -> usize { let i: usize = kani::any(); kani::assume(i < NQ); i } // tag: range
 
     // ------------------------------------------------------------------------------------------ accepts
@@ -306,7 +311,7 @@ mod kani_c19 {
         }
     }
 
-    /// ... nor its name.  UNTRIAGED: fails under CBMC although dispatch only borrows `pq.name` immutably (it is the source of a
+    /// ... nor its name.  (Was UNTRIAGED: it failed under CBMC while the snapshot held the name as a byte array, a modelling artifact
     /// symbolic-length copy_from_slice into the 512-octet datagram buffer); snapshots are deterministic (c19_zz_snap_selfcheck) and
     /// the emitted question name equals the PRE name (c19_dispatch_datagram).  Kept in the thorough tier until explained.
     #[kani::proof] #[kani::unwind(3)]
@@ -402,7 +407,7 @@ mod kani_c19 {
             assert!(d.src.is_some() && Some(bits(m.src)) == d.src.map(|x| x.to_bits()), "C19.dispatch: source is an interface address");
             assert!(m.txid == a.txid && m.qd == 1 && m.an == 0 && m.flags_rd_only && m.opcode_query, "C19.dispatch: header");
             assert!(m.plen == 12 + a.name_len + 4 && m.total == 8 + m.plen, "C19.dispatch: length = header + name + type + class");
-            if m.gk < a.name_len { assert!(m.gbyte == a.name[m.gk], "C19.dispatch: question name is the query name"); }
+            if m.gk < a.name_len { assert!(m.gbyte == name_byte(a, m.gk), "C19.dispatch: question name is the query name"); }
             assert!(m.ty == a.ty && m.class == 1, "C19.dispatch: question type is the query type, class IN");
             assert!(m.hop == d.s.hop_limit.unwrap_or(64), "C19.dispatch: hop limit");
         }
@@ -468,7 +473,7 @@ mod kani_c19 {
         let b = snap(&s, i);
         kani::cover!(matches!(&r, Ok(v) if !v.is_empty()), "addresses returned");
         match r {
-            Ok(v) => assert!(a.k == K::Completed && { let mut same = true; upto6(DNS_MAX_RESULT_COUNT, |j| same &= obits(v.get(j).copied()) == obits(a.addrs[j])); same } && b.k == K::Free, "C19.result: addresses only from a completed query"),
+            Ok(v) => assert!(a.k == K::Completed && { let mut same = true; upto6(DNS_MAX_RESULT_COUNT, |j| same &= obits(v.get(j).copied()) == addr_bits(&a, j)); same } && b.k == K::Free, "C19.result: addresses only from a completed query"),
             Err(GetQueryResultError::Pending) => assert!(a.k == K::Pending && b.k == K::Pending && same_name(&a, &b) && b.txid == a.txid, "C19.result: pending query kept"),
             Err(GetQueryResultError::Failed) => assert!(a.k == K::Failure && b.k == K::Free, "C19.result: failure reported, slot freed"),
         }
@@ -476,9 +481,55 @@ mod kani_c19 {
     }
 
     // ------------------------------------------------------------------------------------------ process (response matching)
-    // s := any socket with two slots (pending names are well-formed raw names: the output of start_query / copy_name);
-    // datagram := any bytes of length <= PL accepted by `accepts`; OLD := snapshot; call the real process; assert POST.
-    const PL: usize = 12 + 8 + 16;   // header + question (name <= 4) + one answer record with a compressed name and 4 octets of data
+    // Modular step: `process` is verified against the CONTRACTS of the name functions it calls, which are proved separately:
+    //   Question::parse / Record::parse  -> "Err, or a name that is a prefix of the buffer, fixed fields, and a strict suffix as rest"
+    //                                        (bodies: c19_wire_question, c19_wire_record)
+    //   eq_names                         -> "Err, Ok(false) or Ok(true)", the answer of the k-th call being the ghost EQ[k]
+    //                                        (body against byte equality of plain names: c19_eq_names_plain)
+    //   copy_name                        -> "Err, or the destination holds some well-formed raw name" (body: c19_copy_name)
+    // The ghost log records what the contracts returned, so that the postcondition can say WHICH answers process may use.
+    const PL: usize = 48;   // header 12 + question >= 5 + two A records >= 15 each
+    const NCALL: usize = 4;
+    static mut EQ: [u8; NCALL] = [0; NCALL];       // ghost: result of the k-th eq_names call (0 = Ok(true), 1 = Ok(false), 2 = Err)
+    static mut EQ_CALLS: usize = 0;
+    static mut Q_OK: bool = false; static mut Q_TYPE: u16 = 0;   // ghost: what Question::parse returned
+    static mut REC_N: usize = 0; static mut REC_A: [Option<u32>; 3] = [None; 3];   // ghost: A data of the r-th parsed record
+
+    fn question_contract<'a>(buffer: &'a [u8]) -> crate::wire::Result<(&'a [u8], Question<'a>)> where 'a: 'a {
+        if kani::any() { return Err(crate::wire::Error); }
+        let k: usize = kani::any();
+        kani::assume(k >= 1 && k <= buffer.len() && buffer.len() - k >= 4); // tag: contract
+        let t: u16 = kani::any();
+        unsafe { Q_OK = true; Q_TYPE = t; }
+        Ok((&buffer[k + 4..], Question { name: &buffer[..k], type_: Type::from(t) }))
+    }
+    fn record_contract<'a>(buffer: &'a [u8]) -> crate::wire::Result<(&'a [u8], Record<'a>)> where 'a: 'a {
+        if kani::any() { return Err(crate::wire::Error); }
+        let k: usize = kani::any(); let len: usize = kani::any();
+        kani::assume(k >= 1 && k <= buffer.len() && buffer.len() - k >= 10 && len <= buffer.len() - k - 10); // tag: contract
+        let data = &buffer[k + 10..k + 10 + len];
+        let rd = match kani::any::<u8>() % 3 {
+            0 => { kani::assume(len == 4); RecordData::A(any_v4()) } // tag: contract
+            1 => RecordData::Cname(data),
+            _ => { let t: u16 = kani::any(); kani::assume(t != 1 && t != 5 && t != 28); RecordData::Other(Type::from(t), data) } // tag: contract
+        };
+        unsafe { if REC_N < 3 { REC_A[REC_N] = match rd { RecordData::A(x) => Some(x.to_bits()), _ => None }; } REC_N += 1; }
+        Ok((&buffer[k + 10 + len..], Record { name: &buffer[..k], ttl: kani::any(), data: rd }))
+    }
+    fn eq_names_contract<'a, A: Iterator<Item = crate::wire::Result<&'a [u8]>>, B: Iterator<Item = crate::wire::Result<&'a [u8]>>>(_a: A, _b: B) -> crate::wire::Result<bool> {
+        let k = unsafe { let k = EQ_CALLS; EQ_CALLS += 1; k };
+        let r = if k < NCALL { unsafe { EQ[k] } } else { kani::any::<u8>() };
+        match r % 3 { 0 => Ok(true), 1 => Ok(false), _ => Err(crate::wire::Error) }
+    }
+    fn copy_name_contract<'a, const N: usize, I: Iterator<Item = crate::wire::Result<&'a [u8]>>>(dest: &mut HVec<u8, N>, _name: I) -> Result<(), crate::wire::Error> {
+        dest.truncate(0);
+        let n: usize = kani::any();
+        upto6(N, |i| if i < n { dest.push(kani::any()).ok(); });
+        if kani::any() { return Err(crate::wire::Error); }
+        kani::assume(raw_name_ok(dest)); // tag: contract
+        Ok(())
+    }
+
     struct PStep { pre: [Snap; NQ], post: [Snap; NQ], payload: [u8; PL], n: usize, dport: u16 }
     /// a stored query name is a sequence of plain labels (length 1..=63) closed by the root label, filling the vector exactly
     fn raw_name_ok(name: &[u8]) -> bool {
@@ -514,79 +565,115 @@ mod kani_c19 {
         let ip = IpRepr::Ipv4(Ipv4Repr { src_addr: any_v4(), dst_addr: any_v4(), next_header: IpProtocol::Udp, payload_len: n + 8, hop_limit: kani::any() });
         let udp = UdpRepr { src_port: kani::any(), dst_port: kani::any() };
         kani::assume(s.accepts(&ip, &udp)); // tag: api-precondition (process is only called on accepted datagrams; c19_accepts)
+        unsafe { EQ = kani::any(); EQ_CALLS = 0; Q_OK = false; Q_TYPE = 0; REC_N = 0; REC_A = [None; 3]; }
         let pre = [snap(&s, 0), snap(&s, 1)];
         s.process(&mut cx, &ip, &udp, &payload[..n]);
         let post = [snap(&s, 0), snap(&s, 1)];
         PStep { pre, post, payload, n, dport: udp.dst_port }
     }
+    macro_rules! process_stubs { ($(#[$m:meta])* fn $name:ident() $body:block) => {
+        $(#[$m])*
+        #[kani::proof] #[kani::unwind(6)]
+        #[kani::stub(crate::wire::dns::Question::parse, question_contract)] #[kani::stub(crate::wire::dns::Record::parse, record_contract)]
+        #[kani::stub(crate::socket::dns::eq_names, eq_names_contract)] #[kani::stub(crate::socket::dns::copy_name, copy_name_contract)]
+        fn $name() $body
+    } }
 
+    process_stubs! {
     /// a datagram that is not a response to one standard question, or is not addressed to the query's own port with its
     /// transaction id, leaves the query exactly as it was; free, completed and failed slots are never touched
-    #[kani::proof] #[kani::unwind(10)]
     fn c19_process_ignores_foreign() {
         let d = run_process();
         let i = any_index();
         let (a, b) = (&d.pre[i], &d.post[i]);
         kani::cover!(a.k == K::Pending && hdr_ok(&d) && addressed_to(&d, a), "a response addressed to a pending query");
         kani::cover!(a.k == K::Pending && b.k == K::Completed, "a query can be completed");
-        if a.k != K::Pending { assert!(same_snap(a, b), "C19.process: only pending queries are touched"); }
+        if a.k != K::Pending {
+            assert!(a.k == b.k, "C19.process: only pending queries are touched (kind)");
+            assert!(same_addrs(a, b), "C19.process: only pending queries are touched (addresses)");
+            assert!(a.name_len == b.name_len, "C19.process: only pending queries are touched (name_len)");
+            assert!(same_name(a, b), "C19.process: only pending queries are touched (name)");
+            assert!(a.ty == b.ty, "C19.process: only pending queries are touched (ty)");
+            assert!(a.port == b.port && a.txid == b.txid, "C19.process: only pending queries are touched (port/txid)");
+            assert!(a.timeout_at == b.timeout_at && a.retransmit_at == b.retransmit_at && a.delay == b.delay && a.idx == b.idx && a.mdns == b.mdns, "C19.process: only pending queries are touched (timers)");
+        }
         else if !hdr_ok(&d) || !addressed_to(&d, a) { assert!(same_snap(a, b), "C19.process: a datagram with another port / transaction id / not a single-question response leaves the query alone"); }
-    }
+    } }
 
-    /// a query is completed (or failed) by a response only if that response is addressed to it and, for completion, repeats its
-    /// question type and - where the question name is written without compression - its name octet for octet; a completed
-    /// query holds at least one address and every address it holds is the data of an A record of that response
-    #[kani::proof] #[kani::unwind(10)]
+    process_stubs! {
+    /// a query ends only through a response addressed to it; it is COMPLETED only if that response's question parsed, has the
+    /// query's type and compared equal to the query's name, and then it holds at least one address, each address being the data
+    /// of an A record of that response whose owner name compared equal to the (CNAME-updated) query name
     fn c19_process_completes_only_on_match() {
         let d = run_process();
         let i = any_index();
         let (a, b) = (&d.pre[i], &d.post[i]);
         kani::assume(a.k == K::Pending); // tag: case-split
-        kani::cover!(b.k == K::Completed && a.name_len == 3, "completion of a query for a one-letter name");
+        kani::assume(i == 0 || !(d.pre[0].k == K::Pending && hdr_ok(&d) && addressed_to(&d, &d.pre[0]))); // tag: case-split  (the first addressed query is the one examined; the ghost call log is then about it)
+        kani::cover!(b.k == K::Completed, "completion");
+        kani::cover!(b.k == K::Completed && addr_bits(b, 1).is_some(), "completion with two addresses");
         kani::cover!(b.k == K::Failure, "failure by a response");
         if b.k != K::Pending { assert!(hdr_ok(&d) && addressed_to(&d, a), "C19.process: only a response with the query's port and transaction id ends it"); }
         if b.k == K::Completed {
-            let q = Question::parse(&d.payload[12..d.n]);
-            assert!(q.is_ok(), "C19.process: the completing response carries a well-formed question");
-            let (rest, q) = q.unwrap();
-            assert!(u16::from(q.type_) == a.ty, "C19.process: ... of the query's type");
-            if raw_name_ok(q.name) {
-                let mut same = q.name.len() == a.name_len;
-                upto6(DNS_MAX_NAME_SIZE, |j| if j < q.name.len() && j < a.name_len { same &= q.name[j] == a.name[j]; });
-                assert!(same, "C19.process: ... and of the query's name");
-            }
-            assert!(be16(&d.payload, 6) >= 1 && b.addrs[0].is_some(), "C19.process: a completed query holds an address taken from an answer record");
-            // every stored address is the data of an A record among the (at most two, at this length) answer records
-            let r1 = Record::parse(rest);
-            assert!(r1.is_ok());
-            let (rest1, r1) = r1.unwrap();
-            let a1 = match r1.data { RecordData::A(x) => Some(x.to_bits()), _ => None };
-            let a2 = if be16(&d.payload, 6) >= 2 { match Record::parse(rest1) { Ok((_, r2)) => match r2.data { RecordData::A(x) => Some(x.to_bits()), _ => None }, Err(_) => None } } else { None };
-            upto6(DNS_MAX_RESULT_COUNT, |j| if let Some(x) = obits(b.addrs[j]) { assert!(Some(x) == a1 || Some(x) == a2, "C19.process: every address comes from an A record of the response"); });
+            let (q_ok, q_type, eq, rec_a) = unsafe { (Q_OK, Q_TYPE, EQ, REC_A) };
+            assert!(q_ok && q_type == a.ty, "C19.process: the completing response carries a well-formed question of the query's type");
+            assert!(eq[0] % 3 == 0, "C19.process: ... whose name compared equal to the query's name");
+            assert!(addr_bits(b, 0).is_some(), "C19.process: a completed query holds an address");
+            upto6(DNS_MAX_RESULT_COUNT, |j| if let Some(x) = addr_bits(b, j) {
+                let from0 = rec_a[0] == Some(x) && eq[1] % 3 == 0;
+                let from1 = rec_a[1] == Some(x) && eq[2] % 3 == 0;
+                assert!(from0 || from1, "C19.process: every address is the data of an A record whose owner name compared equal to the query name");
+            });
         }
-    }
+    } }
 
-    /// a response whose question names another host (uncompressed, differing from the query's name) or another type never ends
-    /// the query successfully and leaves it pending unless it is an NXDomain
-    #[kani::proof] #[kani::unwind(10)]
+    process_stubs! {
+    /// a response whose question is malformed, of another type, or names another host never touches the query (an NXDomain
+    /// response addressed to the query fails it, whatever its question)
     fn c19_process_question_mismatch() {
         let d = run_process();
         let i = any_index();
         let (a, b) = (&d.pre[i], &d.post[i]);
         kani::assume(a.k == K::Pending && hdr_ok(&d) && addressed_to(&d, a)); // tag: case-split
-        kani::assume(i == 0 || !(d.pre[0].k == K::Pending && addressed_to(&d, &d.pre[0]))); // tag: case-split  (the first addressed query is the one examined)
+        kani::assume(i == 0 || !(d.pre[0].k == K::Pending && addressed_to(&d, &d.pre[0]))); // tag: case-split
         let nxdomain = d.payload[3] & 0x0f == 3;
-        match Question::parse(&d.payload[12..d.n]) {
-            Err(_) => { kani::cover!(true, "malformed question"); if !nxdomain { assert!(same_snap(a, b), "C19.process: malformed question is ignored"); } }
-            Ok((_, q)) => {
-                let mut differs = q.name.len() != a.name_len;
-                upto6(DNS_MAX_NAME_SIZE, |j| if j < q.name.len() && j < a.name_len { differs |= q.name[j] != a.name[j]; });
-                kani::cover!(raw_name_ok(q.name) && differs, "question for another name");
-                if !nxdomain && (u16::from(q.type_) != a.ty || (raw_name_ok(q.name) && differs)) {
-                    assert!(same_snap(a, b), "C19.process: a response to another question leaves the query alone");
-                }
-            }
-        }
+        let (q_ok, q_type, eq) = unsafe { (Q_OK, Q_TYPE, EQ) };
+        kani::cover!(!nxdomain && q_ok && q_type == a.ty && eq[0] % 3 == 1, "question for another name");
+        kani::cover!(nxdomain && b.k == K::Failure, "NXDomain fails the query");
+        if !nxdomain && (!q_ok || q_type != a.ty || eq[0] % 3 != 0) { assert!(same_snap(a, b), "C19.process: a response to another question leaves the query alone"); }
+        if nxdomain { assert!(b.k == K::Failure, "C19.process: NXDomain fails the query"); }
+    } }
+
+    /// eq_names on two plain (uncompressed, well-formed) names is octet equality
+    #[kani::proof] #[kani::unwind(8)]
+    fn c19_eq_names_plain() {
+        let hdr: [u8; 12] = kani::any();
+        let p = Packet::new_unchecked(&hdr[..]);
+        let (a, b): ([u8; DNS_MAX_NAME_SIZE], [u8; DNS_MAX_NAME_SIZE]) = (kani::any(), kani::any());
+        let (la, lb): (usize, usize) = (kani::any(), kani::any());
+        kani::assume(la <= DNS_MAX_NAME_SIZE && lb <= DNS_MAX_NAME_SIZE && raw_name_ok(&a[..la]) && raw_name_ok(&b[..lb])); // tag: pre
+        let r = eq_names(p.parse_name(&a[..la]), p.parse_name(&b[..lb]));
+        let mut same = la == lb;
+        upto6(DNS_MAX_NAME_SIZE, |j| if j < la && j < lb { same &= a[j] == b[j]; });
+        kani::cover!(same && la == 6, "equal two-label names");
+        kani::cover!(!same && la == lb, "names of equal length that differ");
+        assert!(r == Ok(same), "C19.eq_names: plain names are equal iff their octets are");
+    }
+
+    /// copy_name of a plain name reproduces it (and the result is again a well-formed raw name); too long a name is refused
+    #[kani::proof] #[kani::unwind(8)]
+    fn c19_copy_name() {
+        let hdr: [u8; 12] = kani::any();
+        let p = Packet::new_unchecked(&hdr[..]);
+        let a: [u8; DNS_MAX_NAME_SIZE] = kani::any();
+        let la: usize = kani::any();
+        kani::assume(la <= DNS_MAX_NAME_SIZE && raw_name_ok(&a[..la])); // tag: pre
+        let mut dest: HVec<u8, DNS_MAX_NAME_SIZE> = any_name();
+        let r = copy_name(&mut dest, p.parse_name(&a[..la]));
+        assert!(r.is_ok(), "C19.copy_name: a name that fits is copied");
+        let mut same = dest.len() == la;
+        upto6(DNS_MAX_NAME_SIZE, |j| if j < la && j < dest.len() { same &= a[j] == dest[j]; });
+        assert!(same && raw_name_ok(&dest), "C19.copy_name: the copy equals the plain name");
     }
 
     // ------------------------------------------------------------------------------------------ C13 (DNS part)
